@@ -213,6 +213,27 @@ Theorem C13_backend_target_args_take_effect : forall cd sp T b1 y b2,
 Proof. exact target_args_take_effect. Qed.
 Print Assumptions C13_backend_target_args_take_effect.
 
+(* ... a -I/-L of the per-target c_args is searched before every directory added earlier, in
+   particular before the custom target output dirs (t_custom; ninjabackend.py:3145-3148 adds them
+   "before target-specific include directories") ... *)
+Theorem C13_backend_target_include_args_take_effect : forall cd sp T b1 y b2,
+  sp y = true -> is_ov cd y = true -> t_targs T = b1 ++ y :: b2 -> ~ In y b1 ->
+  ~ In y (t_srcinc T) -> ~ In y (t_bldinc T) -> ~ In y (t_privinc T) ->
+  exists X S, compile_args cd sp T = X ++ y :: S /\ ~ In y X /\ ~ In y S
+              /\ (forall x, In x X -> sp x = true /\
+                    (In x b1 \/ In x (t_srcinc T) \/ In x (t_bldinc T) \/ In x (t_privinc T))).
+Proof. exact target_include_args_take_effect. Qed.
+Print Assumptions C13_backend_target_include_args_take_effect.
+(* ... and so is every directory that an increment AFTER the custom-target-dir increment adds
+   (the include_directories loop): no custom target dir gets in front of it *)
+Theorem C13_backend_custom_dirs_behind_later_includes : forall cd sp T before b1 y b2 later,
+  target_increments T = (basic_increments T ++ [t_show_dep T; t_custom T]) ++ before ++ (b1 ++ y :: b2) :: later ->
+  sp y = true -> is_ov cd y = true -> ~ In y b1 -> (forall b, In b later -> ~ In y b) ->
+  exists X S, eager_iadds cd sp [] (target_increments T) = X ++ y :: S /\ ~ In y X /\ ~ In y S
+              /\ (forall x, In x X -> sp x = true /\ (In x b1 \/ exists b, In b later /\ In x b)).
+Proof. exact custom_dirs_behind_later_includes. Qed.
+Print Assumptions C13_backend_custom_dirs_behind_later_includes.
+
 (* ---- the code as shipped in b8a063f, before pending/C13-*.diff -------------------------
    _should_prepend as shipped moves the bare word "-I"/"-L" to the front, away from its
    operand: the order clause is false for it ... *)
